@@ -53,10 +53,12 @@ type Model struct {
 	Work    Snap
 	LastOp  map[string]byte // per key: last operation in the working version ('S' or 'R')
 	Dirty   bool            // any successful Set or Remove since the last commit/rollback/load
+	// Written[v] = keys whose last operation in version v was a Set (they are present in v)
+	Written map[int64]map[string]bool
 }
 
 func New(initial int64) *Model {
-	return &Model{Vers: map[int64]Snap{}, Work: Snap{}, LastOp: map[string]byte{}, Initial: initial}
+	return &Model{Vers: map[int64]Snap{}, Work: Snap{}, LastOp: map[string]byte{}, Initial: initial, Written: map[int64]map[string]bool{}}
 }
 
 func (m *Model) WorkingVersion() int64 {
@@ -97,6 +99,13 @@ func (m *Model) Exists(v int64) bool {
 func (m *Model) Commit() int64 {
 	v := m.WorkingVersion()
 	m.Vers[v] = m.Work.Clone()
+	wr := map[string]bool{}
+	for k, op := range m.LastOp {
+		if op == 'S' {
+			wr[k] = true
+		}
+	}
+	m.Written[v] = wr
 	if m.First == 0 {
 		m.First = v
 	}
